@@ -78,14 +78,14 @@ func ProcChildMain() int {
 	closeMine := func() {
 		if !closed {
 			closed = true
-			syscall.Shutdown(mine, syscall.SHUT_RDWR)
-			syscall.Close(mine)
+			syscall.Shutdown(mine, syscall.SHUT_RDWR) // closed by the reader goroutine when it returns (no descriptor reuse under its feet)
 		}
 	}
 	amf := refamf.New(sp.Cfg.AMFConfig(), ch, refamf.Fault{At: sp.FaultAt, Kind: sp.FaultKind}, func(b []byte) error { _, e := syscall.Write(mine, b); return e }, closeMine)
 	done := make(chan struct{})
 	go func() {
 		defer close(done)
+		defer syscall.Close(mine)
 		buf := make([]byte, 1<<16)
 		for {
 			n, err := syscall.Read(mine, buf)
